@@ -99,25 +99,25 @@ PENDING = {}
 
 # rules added after the first version of a claim (see the "As built" notes of DESIGN.md §4)
 ADDENDA = {
- "C10": " A number literal ends only where the input ends or no digit of either script follows.",
- "C01": " Per declarator of a ধরি list the initialiser stored in the tree is the expression after that declarator's own `=`, nil without one.",
+ "C10": " A number literal ends only where the input ends or no digit of either script follows. The script reaches the scanner as the whole file, read once and converted in one piece (a text decoded block by block cuts a Bangla digit in two).",
+ "C01": " Per declarator of a ধরি list the initialiser stored in the tree is the expression after that declarator's own `=`, nil without one. What a parse function hands back is a node built, or a sub-parse made, on that path (no node stands at two places of the tree).",
  "C11": " The argument list a built-in receives is built during this evaluation from the evaluated arguments in order (C04's call protocol); string indexes go through the text case of the integer coercion. Nothing outside eval's dispatch inspects the shape of an expression (a call such as লেন(a) is evaluated where and when it is written).",
- "C02": " Also decided (shared rules): `+` splices in a number's text as দেখাও prints it — every value-to-text site is fmt %v, no second number-to-text routine (C15's rule) — and == / != compare numbers by value because every number has one Go representation (C16's universe rule). The coercions of text (transliterate, ParseFloat of the whole text, whole-number test for integers) are part of the coercion table; the operator functions and everything they call neither write nor read mutable package-level state (S5). == and != cannot panic: no two values of an uncomparable Go type can reach isEqual's fallback comparison (C07's rule). Arrays and objects are equal by identity and nothing else (the only ways to answer false: other kind, different length, different storage), so every container equals itself.",
- "C03": " Also decided: S3 tree links — a parse function returning a statement/expression list returns exactly its sub-parser results in order and every child link of a node is a sub-parser result or a node built on that path (scopes follow the tree, so a parser that flattens, drops or splices blocks is reported); the function activation binds the function's own name and its parameters by position (C04's rule under C03's name). Every name operation of every evaluator clause addresses the clause's own scope (a lookup starting at the globals skips the bindings in between).",
+ "C02": " Also decided (shared rules): `+` splices in a number's text as দেখাও prints it — every value-to-text site is fmt %v, no second number-to-text routine (C15's rule) — and == / != compare numbers by value because every number has one Go representation (C16's universe rule). The coercions of text (transliterate, ParseFloat of the whole text, whole-number test for integers) are part of the coercion table; the operator functions and everything they call neither write nor read mutable package-level state (S5). == and != cannot panic: no two values of an uncomparable Go type can reach isEqual's fallback comparison (C07's rule). Arrays and objects are equal by identity and nothing else (the only ways to answer false: other kind, different length, different storage), so every container equals itself. No value is produced on a path on which the operator's own coercion of an operand failed.",
+ "C03": " Also decided: S3 tree links — a parse function returning a statement/expression list returns exactly its sub-parser results in order and every child link of a node is a sub-parser result or a node built on that path (scopes follow the tree, so a parser that flattens, drops or splices blocks is reported); the function activation binds the function's own name and its parameters by position (C04's rule under C03's name). Every name operation of every evaluator clause addresses the clause's own scope (a lookup starting at the globals skips the bindings in between). Every nested evaluation in a clause is of a part of the construct being evaluated (a callee's body is evaluated by Function.Call only, never in the caller's scope).",
  "C04": " Also decided: the activation binds the function's own name; S6 balanced activation state — a counter the interpreter raises in a function (call depth, nesting level) is restored on every return path of that function (defer-aware), so finished calls leave no residue. The activation binds the own name first and the parameters over it, all before the body runs. One fresh scope per execution of a block or loop body and names looked up under the node's own lexeme everywhere (C03's wiring rules), which is what capture by reference rests on.",
  "C05": " Also decided: S4 (shared with C03) the parser hands every statement of a body or block to the tree; S2 the truthiness table of isTruthy for every value kind (C14's rule), since arms and loops depend on conditions only through it. Conditions group as documented (C01's ladder) and an assignment updates the innermost binding of a name (C03's environment shape), so nested loops over one name keep their own counters.",
- "C06": " Also decided (S0): the faults are detected — the name rules of C03 (undefined name, redeclaration), the call-protocol rules of C04 (callee kind, arity, built-in error) and C02's operator table (type mismatch, zero divisor, negative shift reported before the operation) hold on every path to the operation; detection of index, property and built-in faults is decided under C11, C12, C17. A built-in that performs input hands every read error on (end of input is a fault, not an empty line); the operator functions are stateless (C02/S5). No operation of the evaluator or a built-in can end in a Go panic instead of a diagnostic (C07's panic-site rules for interpreter and environment). Each node's Line is fed from the token the grammar associates with it (C01's wiring table).",
+ "C06": " Also decided (S0): the faults are detected — the name rules of C03 (undefined name, redeclaration), the call-protocol rules of C04 (callee kind, arity, built-in error) and C02's operator table (type mismatch, zero divisor, negative shift reported before the operation) hold on every path to the operation; detection of index, property and built-in faults is decided under C11, C12, C17. A built-in that performs input hands every read error on (end of input is a fault, not an empty line); the operator functions are stateless (C02/S5). No operation of the evaluator or a built-in can end in a Go panic instead of a diagnostic (C07's panic-site rules for interpreter and environment). Each node's Line is fed from the token the grammar associates with it (C01's wiring table). Shared in round 8: C02's failed-coercion rule (a type mismatch hidden by an ignored conversion error) and C01's fresh-node rule (a node shared by several occurrences carries the first occurrence's line).",
  "C07": " Also decided: P6 typed nil — no pointer whose provenance includes the nil constant is converted to an interface without a dominating nil test; P8 env-chain — Environment.Parent is fixed at construction, so the parent walk of Get/Assign is finite (C03's constructor rule). Value facts that no single dominating test gives are proved path-wise in loop-free code (every entry-to-use path passes an establishing test; contradictory paths pruned); down-counting loop counters are bounded above by induction. Maps keyed by interface values are only ever looked up or stored into with hashable dynamic values.",
- "C08": " Also decided: S6 — a node that assignment() would accept as a target is never handed on unchanged by a function that consumed further tokens around it (parenthesised targets are rejected); S7 — comments and strings end exactly where the language says (shared with C09); every name token stored as a declared variable or function name has been looked up in the reserved table, and found absent, on that path. The panic-site rules of C07 hold for every function of lexer, parser, token and ast (no abnormal termination of the front end); direct right recursion and iteration are the same language (Arden normal form on both sides of the grammar comparison). The scanner is given the program text unchanged (no replacer, trim or normalisation between reading the file and scanning).",
+ "C08": " Also decided: S6 — a node that assignment() would accept as a target is never handed on unchanged by a function that consumed further tokens around it (parenthesised targets are rejected); S7 — comments and strings end exactly where the language says (shared with C09); every name token stored as a declared variable or function name has been looked up in the reserved table, and found absent, on that path. The panic-site rules of C07 hold for every function of lexer, parser, token and ast (no abnormal termination of the front end); direct right recursion and iteration are the same language (Arden normal form on both sides of the grammar comparison). The scanner is given the program text unchanged (no replacer, trim or normalisation between reading the file and scanning). After construction the parser writes nothing but its position (no names, nodes or counts remembered from one construct to the next).",
  "C09": " Also decided: S7 extents — a // comment stops only at a newline or the end of input, a /* */ comment only behind its first */ lying behind the opener, a string only behind its first quote; unterminated forms are reported only at the end of input; the number path adds its token unless ParseFloat of the unconditionally transliterated lexeme fails; the reporter the scanner calls writes its diagnostic and raises the flag on every path. A word token is produced only where the input ends or the next rune is known not to continue a word (longest piece); a comparison on a truncated rune is not the comparison on the rune.",
- "C12": " Also decided (S4, shared with C15): the print statement hands the whole value to the one text function (fmt %v), no hand-written traversal. The functions that parse object syntax reject nothing of their own (C08's filter rule), so a literal yields its listed properties whatever they are called.",
+ "C12": " Also decided (S4, shared with C15): the print statement hands the whole value to the one text function (fmt %v), no hand-written traversal. The functions that parse object syntax reject nothing of their own (C08's filter rule), so a literal yields its listed properties whatever they are called. Nothing outside eval's dispatch looks at the syntactic kind of an expression and every clause evaluates its operands on every successful path, so a property read fails wherever it stands (C14's and C16's rules).",
  "C13": " Also decided: listing the keys of an object is one pass over the shared ordering function on every call, nothing remembered between calls (C12's rule). The initialisers of an object literal run once each in source order, in one pass (C12's literal rule).",
  "C14": " Also decided (S4, shared with C16/C18): nothing outside eval's dispatch tests the syntactic kind of an operand, so no operand expression is rewritten between parsing and evaluation. A call evaluates the callee, then each argument once in order into a list of its own, and that list reaches the callee (C04's call protocol). Which operand a short-circuit operator guards follows the documented grouping (C01's ladder and associativity).",
  "C15": " Also decided: the text functions read and write no package-level state (the text of a value depends on the value alone). What + splices in is text(left) + text(right) with the operands unchanged (the + row of C02's table). No strconv number formatter exists anywhere in the module: fmt %v is the only number-to-text routine. Printing normalises with NFC and with no other form; every number has one Go representation (C16's rule), which is what makes its text well defined.",
  "C16": " Also decided (S2): what an operator yields depends on the operand values only (C02's operator table), and a string literal denotes exactly the text between its quotes (C09/S6), like text from every other producer. A numeric built-in returns what Go's math function returns (C17's routing rule), so its results are not distinguishable from the same number produced otherwise (−0, NaN, ±Inf). min/max return the converted number found by the fold, not the raw argument (C17's fold rule).",
- "C17": " Also decided: the call clause compares the argument count with Arity() for every callee before invoking it (shared with C04), which is what the fixed-arity built-ins rely on.",
- "C18": " Also decided: comments are layout — they end where the language says (extents rule of C09); evaluating a parenthesised expression performs nothing but the evaluation of its operand (no store, counter, report or output on the way, including eval's prologue). The initialisers of an object literal run in source order, not in an order computed from the property names (C12's literal rule). A lexeme is the slice of source it covers (C09's partition rule): no normalisation can merge two spellings of a name. The parser groups as documented (C01's ladder, associativity, postfix chain), which is what makes parentheses repeating that grouping redundant.",
- "C19": " Also decided: unterminated comments and strings are reported exactly when the input ends inside one (shared extents rule); a run that hit a runtime error ends — eval is a no-op once the flag is set and no loop cycles in that state (C06's rules) — so status 70 is actually reached. An invalid operation is detected on every path to it (C06's detection rules), so a faulty run cannot end with status 0. The parser's reporter reports and flags on its only path; every fmt.Printf/Fprintf of the module has a constant format. The scanner's input ends at the end of the text and nowhere else (C09's primitive rule) and the scanner is given the text unchanged.",
+ "C17": " Also decided: the call clause compares the argument count with Arity() for every callee before invoking it (shared with C04), which is what the fixed-arity built-ins rely on. Elements of the first argument are compared only when it is the only argument.",
+ "C18": " Also decided: comments are layout — they end where the language says (extents rule of C09); evaluating a parenthesised expression performs nothing but the evaluation of its operand (no store, counter, report or output on the way, including eval's prologue). The initialisers of an object literal run in source order, not in an order computed from the property names (C12's literal rule). A lexeme is the slice of source it covers (C09's partition rule): no normalisation can merge two spellings of a name. The parser groups as documented (C01's ladder, associativity, postfix chain), which is what makes parentheses repeating that grouping redundant. (f) never-executed code, as far as the parser goes: each parse function rejects by its documented rules only, and the parser keeps no state between constructs except its position.",
+ "C19": " Also decided: unterminated comments and strings are reported exactly when the input ends inside one (shared extents rule); a run that hit a runtime error ends — eval is a no-op once the flag is set and no loop cycles in that state (C06's rules) — so status 70 is actually reached. An invalid operation is detected on every path to it (C06's detection rules), so a faulty run cannot end with status 0. The parser's reporter reports and flags on its only path; every fmt.Printf/Fprintf of the module has a constant format. The scanner's input ends at the end of the text and nowhere else (C09's primitive rule) and the scanner is given the text unchanged. Every rejection of the parser goes through its reporting primitive (an unreported rejection exits 0 having run nothing); the script is the whole file converted in one piece.",
  "C20": " Also decided: a line that fails at run time still ends (C06's rules: eval is a no-op once the flag is set, no loop cycles in that state), so the session answers the next line.",
 }
 for _k, _v in ADDENDA.items():
